@@ -25,6 +25,8 @@ FAMILIES = {
     "roreflect": {"spec": {"imports": "Base AwkCorr", "type": "acase", "fn": "acheck"}, "methods_crosscheck": True},
     "queryreflect": {"spec": {"imports": "Base AwkCorr", "type": "acase", "fn": "acheck"}, "methods_crosscheck": True},
     "zeroreflect": {"spec": {"imports": "Base AwkCorr", "type": "acase", "fn": "acheck"}, "methods_crosscheck": True},
+    "sched": {"model": {"imports": "Base StackImpl StackSpecCorr StackCorr Conc ConcCorr", "type": "mccase", "fn": "mc_check"},
+              "spec": {"imports": "Base StackSpec StackSpecCorr ConcSpecCorr", "prelude": "Import SpecSyntax. Import ConcSyntax.", "type": "sccase", "fn": "sc_check"}},
     "transfer": {"model": {"imports": "Base StackImpl StackSpecCorr TransferCorr TransferCorrM", "type": "tcase", "fn": "tcheck_model"},
                  "spec": {"imports": "Base StackSpec StackSpecCorr TransferCorr", "type": "tcase", "fn": "tcheck_spec"}},
 }
@@ -47,11 +49,17 @@ PROPS = {
     "C11": {"props_file": "Props/C11.v", "families": ["queryreflect"], "design_ref": "DESIGN.md §8 C11",
             "level_text": "Partial: purity is decided (static theorem c11_queries_no_write_no_lock over the regenerated guard IR for every exported method not in the declared mutator list: no store into the receiver or any nested object and no lock operation on any path; model theorems: a query returns the state it was given and the same answer when repeated; dynamic deep-snapshot family incl. freshness of the Unmarshal slice). 'Without a data race' follows from the absence of writes on query paths at the granularity of the IR's store events; the Go memory model itself is outside the model.",
             "technique": "Coq-proved static analysis over a regenerated guard IR + model frame theorems + reflection-driven differential check",
+            "race": {"mode": "queries", "rounds": [25, 800], "workers": 12},
             "assumptions": ["user closures and foreign String methods are assumed pure", "race-freedom is argued from 'no writes on any query path'; the Go memory model and scheduler are not modelled (partial)"]},
     "C17": {"props_file": "Props/C17.v", "families": ["zeroreflect"], "design_ref": "DESIGN.md §8 C17",
             "level_text": "Static theorem c17_zero_inert_every_method over the regenerated guard IR: for every exported method in the source now (except Marshal and Condition.Init) no path on a zero/freed receiver dereferences the nil embedded pointer or the missing configuration record, and none stores into the receiver; nil Auxiliary methods do not dereference. Reset keeps the configuration record and empties the content (nil elements included). Dynamic leg: every method found by reflection x argument variants x {zero, freed, Init()-only Condition, nil Auxiliary}: no panic, zero results, IsZero/IsInit unchanged.",
             "technique": "Coq-proved static analysis over a regenerated guard IR + reflection-driven differential check",
             "assumptions": ["panics other than nil dereference of the embedded pointer / configuration record are covered by the dynamic family only"]},
+    "C10": {"props_file": "Props/C10.v", "families": ["sched"], "design_ref": "DESIGN.md §8 C10",
+            "level_text": "Partial. Proved (Conc.v/ConcProofs.v): in the interleaving model at lock-acquisition granularity (unlocked wrapper part; acquire+critical section+release), for ANY number of goroutines, ANY programs of the eight mutators and ANY schedule, no call panics, the shared slice stays well-formed (configuration slot never returned or removed, capacity respected), and the completed calls - in the order they took effect, which respects every goroutine's own order - are a sequential execution of the list model that returns exactly the values the goroutines got and ends in exactly the shared content (linearizability); some goroutine can always move (no deadlock at this granularity). Refuted in the model and recorded as known finding: freedom from data races (the public wrappers read the slice header and option word before requesting the lock). Not expressible in the model: the Go memory model, the scheduler, sync.Mutex internals. The sched family enforces enumerated interleavings on the real package through the verifPoint hook.",
+            "technique": "Coq linearizability proof (ghost log invariant, induction over schedules) over the regenerated list model + exhaustive scheduler-controlled differential check",
+            "race": {"mode": "mutators", "rounds": [40, 1500], "workers": 8},
+            "assumptions": ["sync.Mutex is an ideal exclusive lock; critical sections are atomic actions", "the Go memory model (torn reads, reordering) and goroutine scheduling are outside the model: partial", "the race-freedom sentence of the property is refuted at footprint level (known finding C10/unlocked-wrapper-reads), not proved"]},
     "C13": {"props_file": "Props/C13.v", "families": ["nesting"], "design_ref": "DESIGN.md §8 C13",
             "level_text": "Theorems c13_*: with the option on Push stores exactly the non-Stack values (in order, up to capacity); switching never touches elements; CanNest = option off = a pushed Stack would be stored; IsNesting = some element is a Stack/alias; in every reachable state.",
             "technique": "Coq proof over the regenerated list model + differential correspondence check (native/alias/pointer-to-alias values)"},
